@@ -320,11 +320,12 @@ def run(ctx):
     tally = Tally()
     batch = Batch(ctx, parallel=10 if q else 6)
     # 1. the design, every program over a small universe
+    # (the repaired design: every deviation constant cleared; the deviations are exhibited one by one below)
     mc = [('programs-3n', consts(NNode=3, FNodes=(100,), Holders=('direct', 'list'), KindSets='KS_Rot0',
-                                 MaxEdges=2, MaxOps=4 if q else 6))]
+                                 MaxEdges=2, MaxOps=4 if q else 5, repaired=DEVIATIONS))]
     if not q:
         mc.append(('programs-2n-kinds', consts(NNode=2, FNodes=(100, 101), Holders=('direct', 'deep'), KindSets='KS_Any',
-                                               MaxEdges=3, MaxOps=4)))
+                                               MaxEdges=2, MaxOps=4, repaired=DEVIATIONS)))
     for name, c in mc:
         batch.mc(name, _cfg(ctx, name, c, invariants=INVARIANTS, properties=PROPERTIES, view='View'), workers=6, timeout=1500)
     # the loading connection through its life-cycle (close / re-open from the pool, resetCaches, deactivation, abort)
@@ -334,7 +335,7 @@ def run(ctx):
     batch.mc('weakadds-off', _cfg(ctx, 'weakadds-off', consts(**WITNESS), invariants=['WeakTargetsStored'], view='View'),
              expect='WeakTargetsStored', workers=1, timeout=300)
     # savepoints: the repaired design (a commit copies only justified records) has every property
-    sp = consts(NNode=3, FNodes=(), Holders=('direct',), KindSets='KS_Plain', MaxEdges=2, MaxOps=4 if q else 6,
+    sp = consts(NNode=3, FNodes=(), Holders=('direct',), KindSets='KS_Plain', MaxEdges=2, MaxOps=4 if q else 5,
                 Savepoints=True, ImportSlots=(2,), repaired=DEVIATIONS)
     batch.mc('savepoints-3n', _cfg(ctx, 'savepoints-3n', sp, invariants=INVARIANTS + ['NoStaleObjects'], view='View',
                                    properties=PROPERTIES + ['SavepointsInvisible']), workers=4, timeout=900)
